@@ -25,6 +25,7 @@ func init() {
 
 func runC20(c *Ctx) {
 	const r1, r2, r3 = "C20-D1", "C20-D2", "C20-D3"
+	fullScanProg = c.P
 	ds := c.P.NamedType(pkgDataset, "Dataset")
 	if ds == nil {
 		c.R.undecided("C20", "anchor/Dataset", "", "", "type dataset.Dataset exists", "unresolved")
@@ -443,8 +444,20 @@ func isRangeIndex(v ssa.Value) bool {
 	if phi, ok := v.(*ssa.Phi); ok && phi.Comment == "rangeindex" {
 		return true
 	}
+	// the induction variable of a hand-written full scan: for i := 0; i < len(x); i++ (x any slice-valued term)
+	if phi, ok := v.(*ssa.Phi); ok && fullScanProg != nil {
+		for _, l := range countingLoops(fullScanProg, phi.Parent()) {
+			if l.Phi == phi && l.StepOne && l.StayTrue && l.IVLeft && l.CondOp == "<" && l.BoundAdj == 0 && l.Init != nil && l.Init.isConst("0") &&
+				l.Bound != nil && l.Bound.Op == "builtin" && l.Bound.Sym == "len" {
+				return true
+			}
+		}
+	}
 	return false
 }
+
+// fullScanProg: the program isRangeIndex consults for counting loops (set by runC20).
+var fullScanProg *Program
 
 func indexValueOf(t *Term) ssa.Value {
 	if t == nil || t.Op != "index" || len(t.Args) != 2 {
